@@ -196,6 +196,10 @@ impl VisitMut for OptChainVisitor<'_> {
 
     fn visit_mut_class(&mut self, _: &mut Class) {}
 
+    fn visit_mut_getter_prop(&mut self, _: &mut GetterProp) {}
+
+    fn visit_mut_setter_prop(&mut self, _: &mut SetterProp) {}
+
     /*
      * Iterates the OptChain finding a method to replace.
      *  If the expression contains method to rewrite, all the OptCall or OptMembers are converted
